@@ -59,27 +59,25 @@ theorem ringpend_closer (s s' : S) (pc : CPc) (hR : GRing s) (hP : GPend s)
   obtain ⟨r1, r3, r4, r5, r6⟩ := hR
   obtain ⟨p0, p1⟩ := hP
   cases pc <;> simp only [stepCloser] at hs <;> (repeat' split at hs) <;> (try cases hs) <;>
-    exact ⟨⟨r1, r3, r4, r5, r6⟩, ⟨p0, p1⟩⟩
+    refine ⟨⟨?_, ?_, ?_, ?_, ?_⟩, ⟨?_, ?_⟩⟩ <;>
+    (try (intro u v huv
+          have hr4 := r4 u
+          have hp1 := p1 u)) <;>
+    simp only [enterDrained, wHoldEntry] at * <;> grind
 
-/-- the ring and pending-trigger invariants are preserved by every step of an execution in which
-    no `Add()` without getters has been started -/
-theorem ringpend_step (s s' : S) (a : Act) (hc : s'.emptyAdds = 0) (hS : GStruct s) (hR : GRing s) (hP : GPend s)
+/-- the ring and pending-trigger invariants are preserved by every step -/
+theorem ringpend_step (s s' : S) (a : Act) (hS : GStruct s) (hR : GRing s) (hP : GPend s)
     (hT : GTrig s) (hs : step s a = some s') : GRing s' ∧ GPend s' := by
   cases a with
   | add n =>
     obtain ⟨r1, r3, r4, r5, r6⟩ := hR
     obtain ⟨p0, p1⟩ := hP
     simp only [step] at hs; cases hs
-    have hn : n ≠ 0 := by
-      intro h; simp [h] at hc
     refine ⟨⟨r1, r3, r4, r5, r6⟩, ⟨?_, ?_⟩⟩
-    · simp only [tally_snoc, aEmpty, aPre]
-      cases n with
-      | zero => contradiction
-      | succ m => simp [List.range'_succ]; exact p0
+    · simpa [tally_snoc] using p0
     · intro sh g hg
       have := p1 sh g hg
-      simp only [tally_snoc, aPend, wHoldEntry] at *
+      simp only [tally_snoc, aPend_new, wHoldEntry] at *
       simpa using this
   | close =>
     obtain ⟨r1, r3, r4, r5, r6⟩ := hR
